@@ -14,6 +14,10 @@ def main():
     finally: pool.terminate(); pool.join()
     print("paths", ex.paths, ex.status, "exhaustive", ex.exhausted, "steps", ex.steps, "queries", ex.queries, "solver %.1fs wall %.1fs" % (ex.solver_time, time.time() - t))
     print("tags", sorted(ex.tags.items(), key=lambda kv: -kv[1])[:45])
+    agg = {}
+    for st in getattr(ex, "solver_stats", {}).values():
+        for k, v in st.items(): agg[k] = agg.get(k, 0) + v
+    print("solver stats", {k: round(v, 1) for k, v in agg.items()})
     print("covers", sorted(ex.covers)); print("unknown branches", ex.unknown_branches)
     for k, v in list(ex.unsupported.items())[:12]: print("UNSUPPORTED x%d: %s" % (v, k[:300]))
     print("unsupported tags", getattr(ex, "unsupported_tags", {}))
